@@ -135,6 +135,10 @@ func init() {
 			}
 			return false
 		},
+		vpkg + "NondetMapOrder": func(fr *frame, a []value) value {
+			fr.i.m.MapNondet = a[0].(bool)
+			return nil
+		},
 		vpkg + "Symbolic": func(fr *frame, a []value) value { return true },
 		vpkg + "Logf":     func(fr *frame, a []value) value { return nil },
 	} {
